@@ -21,8 +21,8 @@ from typing import Dict, List, Optional, Set, Tuple
 
 import sympy as sp
 
-from ..consteval import Folder, FuncVal, Opaque, Raised, Undecidable
-from ..index import AnalysisError, FunctionInfo, Index, norm, own_nodes, resolve_local
+from ..consteval import Folder, FuncVal, Opaque, Raised, Rec, Undecidable
+from ..index import AnalysisError, FunctionInfo, Index, norm, own_nodes, resolve_local, full
 from ..report import Report
 from ..rules import translators as tr
 from ..rules.tables import fold_table, table_func
@@ -110,6 +110,7 @@ def run(idx: Index, rep: Report, tier: str):
     check_chunk_sum(rep, "K9.shot-conservation", idx.function(f"{BACKEND}::Backend._statevector_to_frequencies"), "self.n_shots")
     check_probability_cutoffs(idx, rep)
     check_sympy_initial_state_shapes(idx, rep)
+    check_no_gate_shortcut(idx, rep)
 
 
 def _sev(rep: Report, fmt: str):
@@ -812,6 +813,59 @@ def check_probability_cutoffs(idx: Index, rep: Report):
                 rep.violation(rule, f, node, text=f"{f.qualname}: {norm(node)[:70]}", what="outcomes are dropped only below the documented threshold (1e-10) or when exactly zero",
                               reason=why + ": outcomes with a small but real probability disappear and the distribution no longer sums to one")
     rep.floor("simulate / frequency functions scanned for cut-offs", n, 6)
+
+
+def check_no_gate_shortcut(idx: Index, rep: Report):
+    """Backend.simulate answers a circuit without gates itself, from the initial state, through the array routine of the base class.  That routine
+    understands numeric vectors; an initial state in a backend-specific form (the sympy backend documents Qubit and Matrix objects) has to go to the
+    backend's own simulate_circuit.  The condition of the shortcut is folded for every kind of initial state: taken for none / array / list / tuple, not
+    taken for an object of another type (and never under a noise model or for a circuit with gates)."""
+    import numpy as np
+    rule = "K6.initial-state-shapes"
+    f = idx.function(f"{BACKEND}::Backend.simulate")
+    conds = [n for n in own_nodes(f.node) if isinstance(n, ast.If) and "source_circuit.size == 0" in norm(n.test) and "_statevector_to_frequencies" in full(n)]
+    if len(conds) != 1:
+        raise AnalysisError("Backend.simulate: the shortcut for circuits without gates was not found")
+    known = {"type(None)": type(None), "np.ndarray": np.ndarray, "ndarray": np.ndarray, "numpy.ndarray": np.ndarray, "list": list, "tuple": tuple, "NoneType": type(None),
+             "np.generic": np.generic, "dict": dict, "str": str}
+
+    class _Foreign:
+        """an initial state in a backend-specific form (not a numeric vector)"""
+        _sa_model = True
+
+    class _Circ:
+        _sa_model = True
+
+        def __init__(self, size):
+            self.size, self.width = size, 2
+
+    def hook(v, t):
+        names = [x.strip() for x in t.strip("()").split(",") if x.strip()]
+        if names and all(nm in known for nm in names):
+            return isinstance(v, tuple(known[nm] for nm in names))
+        return None
+    kinds = [("no initial state", None, True), ("a numpy vector", np.array([0., 1., 0., 0.]), True), ("a list", [0., 1., 0., 0.], True), ("a tuple", (0., 1., 0., 0.), True),
+             ("an object of a backend-specific type", _Foreign(), False)]
+    bad = []
+    n = 0
+    for label, sv, want in kinds:
+        for size, noise, expect in ((0, None, want), (1, None, False), (0, "NOISE", False)):
+            fo = Folder(env={"source_circuit": _Circ(size), "self": Rec("Backend", {"_noise_model": noise}), "initial_statevector": sv, "np": Opaque("np")})
+            fo.isinstance_hook = hook
+            try:
+                for nm in {x.id for x in ast.walk(conds[0].test) if isinstance(x, ast.Name)} - set(fo.env):
+                    d_ = resolve_local(f.node, ast.Name(id=nm, ctx=ast.Load()))      # a flag computed into a local in front of the test
+                    if not isinstance(d_, ast.Name):
+                        fo.env[nm] = fo.expr(d_)
+                got = bool(fo.truth(fo.expr(conds[0].test), conds[0].test))
+            except (Undecidable, Raised) as e:
+                raise AnalysisError(f"Backend.simulate: shortcut condition not foldable for {label}: {e}")
+            n += 1
+            if got != expect:
+                bad.append(f"{label}, {'no gates' if size == 0 else 'with gates'}{', noise model' if noise else ''}: shortcut {'taken' if got else 'not taken'}")
+    rep.decide(not bad, rule, f, conds[0], text=f"no-gate shortcut of Backend.simulate: {n} combinations of initial state / circuit / noise model",
+               what="the base class answers a circuit without gates itself only from an initial state its array routine understands (none, or a numeric vector); a "
+                    "backend-specific initial state goes to the backend", reason="; ".join(bad[:3]))
 
 
 def check_sympy_initial_state_shapes(idx: Index, rep: Report):
